@@ -300,6 +300,9 @@ func (h *Heap) baseFacts(s *State, t *Term, iface bool) {
 				}
 			}
 		}
+		if t.Op == "forall" || t.Op == "exists" {
+			return // closed sub-formula (path conditions inside merged memories)
+		}
 		for _, a := range t.Args {
 			walk(a)
 		}
